@@ -5,9 +5,11 @@ import FxVerif.Model.C17Float
 import FxVerif.Model.C17Sort
 import FxVerif.Model.C17Ack
 import FxVerif.Model.C17Cache
+import FxVerif.Model.C17Hist
 import FxVerif.Proofs.C17
 import FxVerif.Proofs.C17Ack
 import FxVerif.Proofs.C17Cache
+import FxVerif.Proofs.C17Hist
 import FxVerif.Proofs.C17Float
 import FxVerif.Proofs.C17Sort
 /-!
@@ -35,6 +37,16 @@ with the check after the inner call (`ack_unchecked_schedule_dependent`, `ack_ch
 (i) caches of STATE-DERIVED data: the node theorem for invariants relating memory and state, with the hypothesis about discarded
 executions explicit (`coherent_cache_process_history_irrelevant`); the write-through cache of the seeded shape is invisible exactly
 as long as nothing it executed is discarded (`writeThrough_cache_invisible_without_discards`, `writeThrough_cache_breaks_determinism`).
+(j) reads at ANOTHER HEIGHT: an archive node also executes reads on discarded branches of OLDER versions; the node theorem for
+invariants relating memory and the latest state with the hypothesis about such reads explicit
+(`versioned_coherent_cache_process_history_irrelevant`); the REGENERATED read-path programs of the keepers touch no process memory
+(`reader_programs_memory_free`), an interpreted program without memory steps is a function of the context's store
+(`memFree_programs_process_history_irrelevant`, `switch_params_source_process_history_irrelevant` for the regenerated programs of
+`GetSwitchParams` / `SetSwitchParams`); the unkeyed read-through cache of the seeded shape is what the interpreter makes of the
+cached programs (`cached_programs_are_read_through`), it is invisible as long as every read is at the latest height
+(`readThrough_cache_invisible_without_foreign_reads`) and visible after a restart followed by a read at an older height
+(`readThrough_historical_read_breaks_determinism`); a derived structure cached under a fingerprint that determines it is invisible
+(`fingerprint_cache_process_history_irrelevant`), under the length of the list it is not (`length_fingerprint_breaks_determinism`).
 Scheduler-, allocator- and dependency-level nondeterminism is outside the model: validated by repeated-process runs.
 -/
 namespace FxVerif.Props.C17
@@ -796,6 +808,214 @@ theorem writeThrough_cache_invisible_without_discards (evs₁ evs₂ : List (Ev 
   exact ⟨rfl, rfl⟩
 
 
+/-! ## (j) reads at another height; the regenerated read-path programs of the keepers -/
+
+/-- obligation over the regenerated read / write paths of the keepers: no step reads or writes process memory -/
+theorem reader_programs_memory_free : readerProgs.all readerCovered = true := by decide
+
+/-- the two entry points through which block execution consults the switch parameters — `GetDisabledMsgs` (ante
+`DisableMsgDecorator`) and `CheckDisabledPrecompiles` (`Contract.Run` of the crosschain and staking precompiles) — are in the
+regenerated list, reach `GetSwitchParams` by a call within the keeper, and everything they call within the keeper (to depth 4) is
+in the list and free of process-memory steps -/
+theorem switch_entry_points_closed :
+    ((readerOf "x/gov/keeper" "Keeper.GetDisabledMsgs").map (callsClosed 4)) = some true ∧
+    ((readerOf "x/gov/keeper" "Keeper.CheckDisabledPrecompiles").map (callsClosed 4)) = some true ∧
+    ((readerOf "x/gov/keeper" "Keeper.GetDisabledMsgs").map (fun r => r.steps.any (fun s => s.kind == "call" && s.arg == "GetSwitchParams"))) = some true ∧
+    ((readerOf "x/gov/keeper" "Keeper.CheckDisabledPrecompiles").map (fun r => r.steps.any (fun s => s.kind == "call" && s.arg == "GetSwitchParams"))) = some true := by
+  decide
+
+/-- the archive-node theorem: state and delivered outputs depend on the block history only — not on restarts, state syncs,
+served executions at the latest height or reads at ANY older height — whenever an invariant relating memory and the LATEST state
+is established by construction for every state, kept by delivered transactions with the new state, kept with the latest state by
+every execution whose effect is discarded, on whatever state it ran (`hforeign`; `s' = s` is the round-4 hypothesis about served
+executions), and state effect and output do not depend on the memory under it -/
+theorem versioned_coherent_cache_process_history_irrelevant {M S I O : Type} (h : Handler M S I O) (m₀ : M) (Inv : M → S → Prop)
+    (hinit : ∀ s, Inv m₀ s)
+    (hdel : ∀ m s i, Inv m s → Inv (h m s i).1 (h m s i).2.1)
+    (hforeign : ∀ m s s' i, Inv m s → Inv (h m s' i).1 s)
+    (hindep : ∀ m m' s i, Inv m s → Inv m' s → (h m s i).2 = (h m' s i).2)
+    (evs₁ evs₂ : List (VEv I)) (hb : blocksOfV evs₁ = blocksOfV evs₂) (n₁ n₂ : VNode M S) (hs : n₁.st = n₂.st)
+    (h₁ : Inv n₁.mem n₁.st) (h₂ : Inv n₂.mem n₂.st) :
+    (runV h m₀ n₁ evs₁).1.st = (runV h m₀ n₂ evs₂).1.st ∧ (runV h m₀ n₁ evs₁).2 = (runV h m₀ n₂ evs₂).2 := by
+  have r₁ := FxVerif.Proofs.C17.runV_eq_pure_on h m₀ Inv (fun _ => True) hinit (fun m s i _ => hdel m s i)
+    (fun m s i _ => hforeign m s s i) (fun m s s' _ i _ => hforeign m s s' i) hindep evs₁ n₁ (fun _ _ => trivial) h₁
+  have r₂ := FxVerif.Proofs.C17.runV_eq_pure_on h m₀ Inv (fun _ => True) hinit (fun m s i _ => hdel m s i)
+    (fun m s i _ => hforeign m s s i) (fun m s s' _ i _ => hforeign m s s' i) hindep evs₂ n₂ (fun _ _ => trivial) h₂
+  rw [r₁.1, r₁.2, r₂.1, r₂.2, hb, hs]
+  exact ⟨rfl, rfl⟩
+
+/-- EVERY getter program without memory steps (with any setter program), interpreted: nodes with ANY memories and ANY older versions agree
+on state and outputs for all process histories with equal block histories — including reads at older heights -/
+theorem memFree_programs_process_history_irrelevant (get set : List RStep) (hg : memFree get = true)
+    (evs₁ evs₂ : List (VEv ParMsg)) (hb : blocksOfV evs₁ = blocksOfV evs₂) (n₁ n₂ : VNode (Option Params) ParStore)
+    (hs : n₁.st = n₂.st) :
+    (runV (progHandler get set) none n₁ evs₁).1.st = (runV (progHandler get set) none n₂ evs₂).1.st ∧
+    (runV (progHandler get set) none n₁ evs₁).2 = (runV (progHandler get set) none n₂ evs₂).2 := by
+  have hindep : ∀ (m m' : Option Params) (s : ParStore) (i : ParMsg), (progHandler get set m s i).2 = (progHandler get set m' s i).2 := by
+    intro m m' s i
+    cases i with
+    | update p ok => rfl
+    | use name =>
+      simp only [progHandler]
+      rw [FxVerif.Proofs.C17.runGetter_memFree get hg m s, FxVerif.Proofs.C17.runGetter_memFree get hg m' s]
+  exact versioned_coherent_cache_process_history_irrelevant (progHandler get set) none (fun _ _ => True) (fun _ => trivial)
+    (fun _ _ _ _ => trivial) (fun _ _ _ _ _ => trivial) (fun m m' s i _ _ => hindep m m' s i) evs₁ evs₂ hb n₁ n₂ hs trivial trivial
+
+/-- … in particular the REGENERATED programs of `GetSwitchParams` / `SetSwitchParams` -/
+theorem switch_params_source_process_history_irrelevant (evs₁ evs₂ : List (VEv ParMsg)) (hb : blocksOfV evs₁ = blocksOfV evs₂)
+    (n₁ n₂ : VNode (Option Params) ParStore) (hs : n₁.st = n₂.st) :
+    (runV (progHandler switchGet switchSet) none n₁ evs₁).1.st = (runV (progHandler switchGet switchSet) none n₂ evs₂).1.st ∧
+    (runV (progHandler switchGet switchSet) none n₁ evs₁).2 = (runV (progHandler switchGet switchSet) none n₂ evs₂).2 :=
+  memFree_programs_process_history_irrelevant switchGet switchSet (by decide) evs₁ evs₂ hb n₁ n₂ hs
+
+/-- … and they compute what the cache-free handler computes (the interpretation of the source programs is the code as it is) -/
+theorem switch_params_source_is_noCache (mem : Option Params) (store : ParStore) (m : ParMsg) :
+    progHandler switchGet switchSet mem store m = noCacheParHandler mem store m := by
+  cases m with
+  | update p ok => rfl
+  | use name =>
+    cases store with
+    | none => cases mem <;> rfl
+    | some p => cases mem <;> rfl
+
+/-- the interpreter turns the programs of the seeded change into the unkeyed read-through cache -/
+theorem cached_programs_are_read_through (mem : Option Params) (store : ParStore) (m : ParMsg) :
+    progHandler cachedGet cachedSet mem store m = readThroughHandler mem store m := by
+  cases m with
+  | update p ok => rfl
+  | use name =>
+    cases mem with
+    | some p => rfl
+    | none => cases store <;> rfl
+
+/-- the seeded shape needs BOTH a restart and a read at an older height before the next use: after the parameters changed, a
+restarted node that first answers a query for the old height refuses / admits differently from a node that did not — while a
+restart alone, or the historical read alone (memory already filled), changes nothing -/
+theorem readThrough_historical_read_breaks_determinism :
+    (runV readThroughHandler none ⟨none, none, []⟩ [.deliver (.update ["send"] true), .deliver (.use "send")]).2 ≠
+      (runV readThroughHandler none ⟨none, none, []⟩
+        [.deliver (.update ["send"] true), .restart, .serveAt 0 (.use "x"), .deliver (.use "send")]).2 ∧
+    (runV readThroughHandler none ⟨none, none, []⟩ [.deliver (.update ["send"] true), .deliver (.use "send")]).2 =
+      (runV readThroughHandler none ⟨none, none, []⟩ [.deliver (.update ["send"] true), .restart, .deliver (.use "send")]).2 ∧
+    (runV readThroughHandler none ⟨none, none, []⟩ [.deliver (.update ["send"] true), .deliver (.use "send")]).2 =
+      (runV readThroughHandler none ⟨none, none, []⟩ [.deliver (.update ["send"] true), .serveAt 0 (.use "x"), .deliver (.use "send")]).2 ∧
+    (runV noCacheParHandler none ⟨none, none, []⟩ [.deliver (.update ["send"] true), .deliver (.use "send")]).2 =
+      (runV noCacheParHandler none ⟨none, none, []⟩
+        [.deliver (.update ["send"] true), .restart, .serveAt 0 (.use "x"), .deliver (.use "send")]).2 := by decide
+
+/-- reads at the LATEST height keep the unkeyed cache coherent (hypothesis (3) of the round-4 theorem holds for them — which is why
+replicas that only serve the latest state never see this cache); it is the hypothesis about reads on ANOTHER state that fails -/
+theorem readThrough_violates_exactly_the_foreign_read_hypothesis :
+    (∀ (m : Option Params) (s : ParStore) (name : String), cohP m s → cohP (readThroughHandler m s (.use name)).1 s) ∧
+    ¬ (∀ (m : Option Params) (s s' : ParStore) (i : ParMsg), cohP m s → cohP (readThroughHandler m s' i).1 s) := by
+  constructor
+  · intro m s name hm
+    cases m with
+    | some p => exact hm
+    | none => intro p hp; simp only [readThroughHandler, Option.some.injEq] at hp; exact hp.symm
+  · intro h
+    have := h none (some ["send"]) none (.use "x") (by intro p hp; cases hp) [] rfl
+    simp [paramsOf] at this
+
+/-- on process histories whose every read is at the latest height and whose every executed update is committed, the unkeyed
+read-through cache cannot be observed: nodes with any coherent memories, any older versions and equal block histories agree -/
+theorem readThrough_cache_invisible_without_foreign_reads (evs₁ evs₂ : List (VEv ParMsg))
+    (c₁ : ∀ e ∈ evs₁, latestOnly e = true) (c₂ : ∀ e ∈ evs₂, latestOnly e = true) (hb : blocksOfV evs₁ = blocksOfV evs₂)
+    (n₁ n₂ : VNode (Option Params) ParStore) (hs : n₁.st = n₂.st) (h₁ : cohP n₁.mem n₁.st) (h₂ : cohP n₂.mem n₂.st) :
+    (runV readThroughHandler none n₁ evs₁).1.st = (runV readThroughHandler none n₂ evs₂).1.st ∧
+    (runV readThroughHandler none n₁ evs₁).2 = (runV readThroughHandler none n₂ evs₂).2 := by
+  have hinit : ∀ s : ParStore, cohP none s := by intro s p hp; cases hp
+  have huse : ∀ (m : Option Params) (s : ParStore) (name : String), cohP m s →
+      readThroughHandler m s (.use name) = (some (paramsOf s), s, (paramsOf s).contains name) := by
+    intro m s name hm
+    cases m with
+    | none => rfl
+    | some p => have := hm p rfl; subst this; rfl
+  have hdel : ∀ (m : Option Params) (s : ParStore) (i : ParMsg), latestOnly (.deliver i) = true → cohP m s →
+      cohP (readThroughHandler m s i).1 (readThroughHandler m s i).2.1 := by
+    intro m s i hc hm
+    cases i with
+    | update p ok =>
+      simp only [latestOnly] at hc; subst hc
+      intro q hq; simp only [readThroughHandler, Option.some.injEq] at hq; simp [readThroughHandler, paramsOf, hq]
+    | use name => rw [huse m s name hm]; intro q hq; simp only [Option.some.injEq] at hq; exact hq.symm
+  have hserve : ∀ (m : Option Params) (s : ParStore) (i : ParMsg), latestOnly (.serve i) = true → cohP m s →
+      cohP (readThroughHandler m s i).1 s := by
+    intro m s i hc hm
+    cases i with
+    | update p ok => simp [latestOnly] at hc
+    | use name => rw [huse m s name hm]; intro q hq; simp only [Option.some.injEq] at hq; exact hq.symm
+  have hforeign : ∀ (m : Option Params) (s s' : ParStore) (k : Nat) (i : ParMsg), latestOnly (.serveAt k i) = true → cohP m s →
+      cohP (readThroughHandler m s' i).1 s := by
+    intro m s s' k i hc; simp [latestOnly] at hc
+  have hindep : ∀ (m m' : Option Params) (s : ParStore) (i : ParMsg), cohP m s → cohP m' s →
+      (readThroughHandler m s i).2 = (readThroughHandler m' s i).2 := by
+    intro m m' s i hm hm'
+    cases i with
+    | update p ok => rfl
+    | use name => rw [huse m s name hm, huse m' s name hm']
+  have r₁ := FxVerif.Proofs.C17.runV_eq_pure_on readThroughHandler none cohP (fun e => latestOnly e = true)
+    hinit hdel hserve hforeign hindep evs₁ n₁ c₁ h₁
+  have r₂ := FxVerif.Proofs.C17.runV_eq_pure_on readThroughHandler none cohP (fun e => latestOnly e = true)
+    hinit hdel hserve hforeign hindep evs₂ n₂ c₂ h₂
+  rw [r₁.1, r₁.2, r₂.1, r₂.2, hb, hs]
+  exact ⟨rfl, rfl⟩
+
+/-- a derived structure cached under an INJECTIVE fingerprint of the parameters (the parameters themselves, a collision-free
+digest) is invisible: all process histories — restarts, state syncs, served executions, reads at older heights — with equal block
+histories give equal states and outputs, from any memories of that form -/
+theorem fingerprint_cache_process_history_irrelevant {F D : Type} [DecidableEq F] (fp : Params → F) (derive : Params → D)
+    (ask : D → String → Bool) (hinj : ∀ p q, fp p = fp q → derive p = derive q)
+    (evs₁ evs₂ : List (VEv ParMsg)) (hb : blocksOfV evs₁ = blocksOfV evs₂) (n₁ n₂ : VNode (Option (F × D)) ParStore)
+    (hs : n₁.st = n₂.st) (h₁ : fingerInv fp derive n₁.mem) (h₂ : fingerInv fp derive n₂.mem) :
+    (runV (fingerHandler fp derive ask) none n₁ evs₁).1.st = (runV (fingerHandler fp derive ask) none n₂ evs₂).1.st ∧
+    (runV (fingerHandler fp derive ask) none n₁ evs₁).2 = (runV (fingerHandler fp derive ask) none n₂ evs₂).2 := by
+  have key : ∀ (m : Option (F × D)) (s : ParStore) (i : ParMsg), fingerInv fp derive m →
+      (fingerHandler fp derive ask m s i).2 = derivePure derive ask s i ∧ fingerInv fp derive (fingerHandler fp derive ask m s i).1 := by
+    intro m s i hm
+    cases i with
+    | update p ok => exact ⟨rfl, hm⟩
+    | use name =>
+      have fresh : fingerInv fp derive (some (fp (paramsOf s), derive (paramsOf s))) := by
+        intro f d h; simp only [Option.some.injEq, Prod.mk.injEq] at h; exact ⟨paramsOf s, h.1.symm, h.2.symm⟩
+      cases m with
+      | none => exact ⟨rfl, fresh⟩
+      | some fd =>
+        obtain ⟨f, d⟩ := fd
+        simp only [fingerHandler, derivePure]
+        by_cases hf : f = fp (paramsOf s)
+        · simp only [hf, if_true]
+          obtain ⟨p, hp, hd⟩ := hm f d rfl
+          have : derive p = derive (paramsOf s) := hinj _ _ (hp.symm.trans hf)
+          refine ⟨by rw [hd, this], ?_⟩
+          rw [← hf]; exact hm
+        · simp only [hf, if_false]
+          exact ⟨trivial, fresh⟩
+  have hindep : ∀ (m m' : Option (F × D)) (s : ParStore) (i : ParMsg), fingerInv fp derive m → fingerInv fp derive m' →
+      (fingerHandler fp derive ask m s i).2 = (fingerHandler fp derive ask m' s i).2 :=
+    fun m m' s i hm hm' => by rw [(key m s i hm).1, (key m' s i hm').1]
+  have r₁ := FxVerif.Proofs.C17.runV_eq_pure_on (fingerHandler fp derive ask) none (fun m _ => fingerInv fp derive m) (fun _ => True)
+    (fun _ f d h => by cases h) (fun m s i _ hm => (key m s i hm).2) (fun m s i _ hm => (key m s i hm).2)
+    (fun m _ s' _ i _ hm => (key m s' i hm).2) hindep evs₁ n₁ (fun _ _ => trivial) h₁
+  have r₂ := FxVerif.Proofs.C17.runV_eq_pure_on (fingerHandler fp derive ask) none (fun m _ => fingerInv fp derive m) (fun _ => True)
+    (fun _ f d h => by cases h) (fun m s i _ hm => (key m s i hm).2) (fun m s i _ hm => (key m s i hm).2)
+    (fun m _ s' _ i _ hm => (key m s' i hm).2) hindep evs₂ n₂ (fun _ _ => trivial) h₂
+  rw [r₁.1, r₁.2, r₂.1, r₂.2, hb, hs]
+  exact ⟨rfl, rfl⟩
+
+/-- the LENGTH of the list is not such a fingerprint: after a second governance change to a list of the same length, a node that
+kept its process answers from the structure built for the first list, a restarted node from the second — no read at another
+height is needed, two cooperating changes are -/
+theorem length_fingerprint_breaks_determinism :
+    (runV (fingerHandler List.length id (fun d n => d.contains n)) none ⟨none, none, []⟩
+      [.deliver (.update ["a"] true), .deliver (.use "b"), .deliver (.update ["b"] true), .deliver (.use "b")]).2 ≠
+    (runV (fingerHandler List.length id (fun d n => d.contains n)) none ⟨none, none, []⟩
+      [.deliver (.update ["a"] true), .deliver (.use "b"), .deliver (.update ["b"] true), .restart, .deliver (.use "b")]).2 ∧
+    (runV (fingerHandler List.length id (fun d n => d.contains n)) none ⟨none, none, []⟩
+      [.deliver (.update ["a"] true), .deliver (.use "b"), .deliver (.update ["b", "c"] true), .deliver (.use "b")]).2 =
+    (runV (fingerHandler List.length id (fun d n => d.contains n)) none ⟨none, none, []⟩
+      [.deliver (.update ["a"] true), .deliver (.use "b"), .deliver (.update ["b", "c"] true), .restart, .deliver (.use "b")]).2 := by decide
+
 -- non-vacuity
 example : committing (.deliver (.register "p" 7 true)) = true ∧ committing (.serve (.register "p" 7 true)) = false ∧
     committing (.deliver (.register "p" 7 false)) = false ∧ committing (.serve (.use "p")) = true := by decide
@@ -834,4 +1054,15 @@ example : runAck ackSteps Sched.id ⟨0, 0, 0, 0, 0⟩ 5 ⟨[("result", "AQ==")]
 example : (runEvs (validatedHandler (· + 1)) [] ⟨[], [("p", 7)]⟩ [.serve (.register "p" 9 true), .deliver (.use "p"), .deliver (.use "q")]).2 = [some 8, none] := by decide
 example : coherent [("p", 7)] [("p", 7)] := fun _ _ h => h
 
+set_option maxRecDepth 8000 in
+example : readerProgs.length ≥ 100 ∧ (readerProgs.filter (fun r => r.steps.any (fun s => s.kind == "store"))).length ≥ 40 := by decide
+example : switchGet = [.store, .retIfNil, .decode, .ret] ∧ memFree switchGet = true ∧ memFree switchSet = true ∧ memFree cachedGet = false := by decide
+example : switchGetOp (some ["stale"]) (some ["send"]) = ["send"] ∧ switchGetOp none none = [] ∧
+    (runGetter cachedGet (some ["stale"]) (some ["send"])).2 = ["stale"] ∧ (runGetter cachedGet none (some ["send"])) = (some ["send"], ["send"]) := by decide
+example : latestOnly (.deliver (.update ["a"] true)) = true ∧ latestOnly (.serveAt 0 (.use "a")) = false ∧ latestOnly (.serve (.use "a")) = true := by decide
+example : cohP (some ["a"]) (some ["a"]) ∧ cohP none (some ["a"]) := ⟨fun p hp => by cases hp; rfl, fun p hp => by cases hp⟩
+example : (runV (progHandler switchGet switchSet) none ⟨some ["stale"], none, []⟩
+    [.deliver (.update ["send"] true), .restart, .serveAt 0 (.use "x"), .deliver (.use "send"), .sync, .serveAt 0 (.use "y"), .deliver (.use "other")]).2 = [false, true, false] := by decide
+example : fingerInv (fun p : Params => p) (fun p => p.length) (some (["a"], 1)) := fun f d h => by
+  simp only [Option.some.injEq, Prod.mk.injEq] at h; exact ⟨["a"], h.1.symm, h.2.symm⟩
 end FxVerif.Props.C17
